@@ -603,8 +603,9 @@ class InboundStream:
                 if ordered:
                     break
                 else:
+                    # the run is incomplete, look at this chunk again:
+                    # it may start (or be) another message
                     start_pos = None
-                    pos += 1
                     continue
 
             if chunk.flags & SCTP_DATA_LAST_FRAG:
